@@ -1,9 +1,5 @@
 (* Replays the case lines written by the Go harness on the extracted Coq model and prints
    one verdict per line (see the per-property modules for the line formats). *)
-let handlers : (string * (string list -> string)) list = [
-  ("C13", C13.handle);
-]
-
 let () =
   let ic = if Array.length Sys.argv > 1 then open_in Sys.argv.(1) else stdin in
   let ok = ref 0 and bad = ref 0 in
@@ -13,7 +9,7 @@ let () =
        let line = input_line ic in
        match Util.split_ws line with
        | prop :: rest ->
-           let v = (try (List.assoc prop handlers) rest with
+           let v = (try (Hashtbl.find Registry.handlers prop) rest with
                     | Not_found -> "bad no-handler"
                     | e -> "bad exception " ^ Printexc.to_string e) in
            if v = "ok" then incr ok
